@@ -526,8 +526,8 @@ impl Family for C18 {
 
     fn runs(t: Tier) -> u64 {
         match t {
-            Tier::Quick => 300_000,
-            Tier::Thorough => 30_000_000,
+            Tier::Quick => 4_000_000,
+            Tier::Thorough => 300_000_000,
         }
     }
 
